@@ -346,12 +346,18 @@ func ruleC04R44(r *Run) {
 				"rejection-derived state repeat."+fa.Field+" influences later draws in "+name+": "+why+" — the bits of rejected attempts are deleted by prune(), so a replay of the pruned recording does not see this state and diverges")
 		}
 	}
-	// reject's own shape: count-1 under assert(count>0)
+	// reject's own shape: count-1 (undoing the increment of more for the rejected attempt)
+	nDec := 0
 	for _, fa := range p.fieldAccesses("repeat") {
 		if fa.Fn == reject && fa.Field == "count" && fa.Kind == "write" {
 			st := fa.Instr.(*ssa.Store)
-			r.Check("(*repeat).reject#count-1", st.Pos(), p.expr(st.Val) == "($r.count - 1)", "reject decrements count by one", "reject writes count with "+p.expr(st.Val))
+			nDec++
+			byp := escapesFromEntry(reject, func(in ssa.Instruction) bool { return in == ssa.Instruction(st) }, false)
+			r.Check("(*repeat).reject#count-1", st.Pos(), p.expr(st.Val) == "($r.count - 1)" && byp == nil, "reject decrements count by one on every path", "reject writes count with "+p.expr(st.Val)+" (or not on every path): the net effect of a rejected attempt on count is not zero")
 		}
+	}
+	if nDec != 1 {
+		r.Fail("(*repeat).reject#count-1", reject.Pos(), fmt.Sprintf("reject decrements count %d times (expected exactly once): a rejected attempt changes the element count seen by later coin flips, which a pruned replay does not reproduce", nDec))
 	}
 	// flipBiasedCoin on a zero word: returns f >= 1-p with f drawn in one group of one word
 	if fc := r.MustFn("flipBiasedCoin"); fc != nil {
